@@ -627,6 +627,19 @@ def _fold_str(e):
             if isinstance(n.op, ast.Add) and isinstance(n.right, ast.Constant) and n.right.value == "":
                 return n.left
             return n
+
+        def visit_Call(self, n):
+            self.generic_visit(n)
+            # '<text>'.count('<x>') on constants
+            if isinstance(n.func, ast.Attribute) and n.func.attr == "count" and isinstance(n.func.value, ast.Constant) and isinstance(n.func.value.value, str) and len(n.args) == 1 and isinstance(n.args[0], ast.Constant) and isinstance(n.args[0].value, str):
+                return ast.Constant(value=n.func.value.value.count(n.args[0].value))
+            return n
+
+        def visit_UnaryOp(self, n):
+            self.generic_visit(n)
+            if isinstance(n.op, ast.USub) and isinstance(n.operand, ast.Constant) and isinstance(n.operand.value, int) and not isinstance(n.operand.value, bool):
+                return ast.Constant(value=-n.operand.value)
+            return n
     return F().visit(e)
 
 
@@ -653,13 +666,18 @@ def fragment_completions(db):
             continue
         # the code argument: <prefix> + code + <suffix>
         parts = []
+        a0 = call.args[0]
+        if isinstance(a0, ast.BinOp) and isinstance(a0.op, ast.Mod) and isinstance(a0.left, ast.Constant) and isinstance(a0.left.value, str) and a0.left.value.count("%s") == 1 and a0.left.value.count("%") == 1:
+            # '<prefix>%s<suffix>' % code
+            pre_, suf_ = a0.left.value.split("%s")
+            a0 = ast.BinOp(left=ast.BinOp(left=ast.Constant(value=pre_), op=ast.Add(), right=a0.right), op=ast.Add(), right=ast.Constant(value=suf_))
         def flat(e):
             if isinstance(e, ast.BinOp) and isinstance(e.op, ast.Add):
                 flat(e.left)
                 flat(e.right)
             else:
                 parts.append(e)
-        flat(call.args[0])
+        flat(a0)
         names = [i for i, p in enumerate(parts) if not (isinstance(p, ast.Constant) and isinstance(p.value, str))]
         if len(names) != 1 or not any(isinstance(x, ast.Name) and x.id == codep for x in ast.walk(parts[names[0]])):
             out.append((kws, None, None, None, call))
@@ -745,10 +763,20 @@ def sym_cases(fn, target, limit=256, tables=None):
             v0 = s.value
             # a look-up in a constant table: one case per key, and the case that the key is not there
             tb = None
-            if tables and isinstance(v0, ast.Call) and isinstance(v0.func, ast.Attribute) and v0.func.attr == "get" and isinstance(v0.func.value, ast.Name) and v0.func.value.id in tables and 1 <= len(v0.args) <= 2:
-                tb, key, dflt = tables[v0.func.value.id], v0.args[0], (v0.args[1] if len(v0.args) == 2 else ast.Constant(value=None))
-            elif tables and isinstance(v0, ast.Subscript) and isinstance(v0.value, ast.Name) and v0.value.id in tables:
-                tb, key, dflt = tables[v0.value.id], v0.slice, None
+            def tname(e_):
+                if isinstance(e_, ast.Name):
+                    return e_.id
+                if isinstance(e_, ast.Attribute) and isinstance(e_.value, ast.Name) and e_.value.id in ("self", "cls"):
+                    return e_.attr
+                return None
+            def table(e_):
+                if isinstance(e_, ast.Dict) and e_.keys and all(isinstance(k_, ast.Constant) for k_ in e_.keys):
+                    return e_
+                return (tables or {}).get(tname(e_))
+            if isinstance(v0, ast.Call) and isinstance(v0.func, ast.Attribute) and v0.func.attr == "get" and table(v0.func.value) is not None and 1 <= len(v0.args) <= 2:
+                tb, key, dflt = table(v0.func.value), v0.args[0], (v0.args[1] if len(v0.args) == 2 else ast.Constant(value=None))
+            elif isinstance(v0, ast.Subscript) and table(v0.value) is not None:
+                tb, key, dflt = table(v0.value), v0.slice, None
             if tb is not None:
                 k_ = sub(key, env)
                 for kk, vv in zip(tb.keys, tb.values):
@@ -773,6 +801,10 @@ def sym_cases(fn, target, limit=256, tables=None):
             cur = env.get(s.target.id, ast.Name(id=s.target.id, ctx=ast.Load()))
             val = _fold_str(ast.BinOp(left=_clone_expr(cur), op=s.op, right=sub(s.value, env)))
             go(rest, conds, dict(env, **{s.target.id: val}))
+            return
+        if isinstance(s, ast.Try) and not s.finalbody and not s.orelse and s.handlers and all(h.body and isinstance(h.body[-1], ast.Raise) for h in s.handlers):
+            # try: <look-up> except KeyError: raise ...   - the cases that go on are those of the body
+            go(list(s.body) + rest, conds, env)
             return
         # any other statement: locals it stores become unknown
         stored = {n.id for n in ast.walk(s) if isinstance(n, ast.Name) and isinstance(n.ctx, (ast.Store, ast.Del))}
